@@ -10,7 +10,7 @@ LEVEL = "fault_enumeration"
 LEVEL_TEXT = ("Complete enumeration of base program (9 programs whose lines contain every construct that touches line bookkeeping: ; and "
               "/* */ comments, multi-line comments, blank lines, indentation, blocks, named scopes, macro definitions and applications, "
               "loops, conditionals, data lists, quoted strings, bare mnemonics with trailing comments, long files, form feed / NEL / U+2028 inside comments and strings) x every "
-              "line boundary where a statement can stand x 8 faulty statements (undefined symbol in an operand / in .db, bad size "
+              "line boundary where a statement can stand x 11 faulty statements (undefined symbol in an operand / in .db, bad size "
               "suffix, bad index register, unterminated string before a newline / at end of input / ending in a backslash) x 4 indentations (none, spaces, tab, mixed) x 3 file "
               "situations (main file; inside an included file; in the main file after an include). The reported text must name the "
               "right file and zero-based line, quote that line, and for lexical errors give the column of the offending character. "
@@ -110,6 +110,21 @@ BASE = {
     "long": ">*=0x018000\n" + "".join(f">    .db {i}, {i + 1}, {i + 2} ; line {i}\n" for i in range(0, 40, 3)) + ">",
     "odd-characters": ">*=0x018000\n>; comment with a form feed \x0c and a vertical tab \x0b inside\n>first:\n>    .ascii 'ff\x0cin string' ; and NEL \x85 here\n"
                       ">/* block comment with U+2028 \u2028 and U+2029 \u2029 inside */\n>    .db 1 ; caf\u00e9 \u00fc\n>second:\n>    .dw second\n>",
+    # names that are valid inside a construct and undefined after it (the three extra faults below use exactly these spellings)
+    "locals": """>*=0x018000
+>.macro one(mp) {
+    .db mp
+}
+>one(3)
+>.for lv := 0, 2 {
+    .db lv
+}
+>.scope sc {
+    sv = 0x44
+    .db sv
+}
+>.db 0x55
+>""",
     "moves": """>*=0x018000
 >first:
 >    .db 1
@@ -126,6 +141,9 @@ FAULTS = {
     "undefined-symbol-db": (".db nosuchsymbol", None),
     "bad-size-suffix": ("lda.q 0x12", 4),
     "bad-index-register": ("lda 0x12,z", 9),
+    "loop-variable-outside-its-loop": (".db lv", None),
+    "macro-parameter-outside-its-macro": (".db mp", None),
+    "scope-local-symbol-outside-its-scope": (".db sv", None),
     "unterminated-string": (".ascii 'abc", 7),
     "unterminated-string-at-eof": (".ascii 'abc", 7),
     "undefined-symbol-dw-before-multiline-comment": (".dw nosuchsymbol /* comment opened on the statement's line\n   and closed on the next */", None),
@@ -136,7 +154,7 @@ INC_VALID = "; included helper file\n\nhelper_value = 0x21\n/* with\n a comment 
 
 
 def bound(tier):
-    return "10 base programs x every insertable line boundary x 8 faults x 4 indentations (none, spaces, tab, mixed) x 3 file situations (thorough: + nested include, + the 13 generated programs of the layout check)"
+    return "11 base programs x every insertable line boundary x 11 faults x 4 indentations (none, spaces, tab, mixed) x 3 file situations (thorough: + nested include, + the 13 generated programs of the layout check)"
 
 
 def parse_base(text):
@@ -207,8 +225,13 @@ def describe(case, res):
     return d
 
 
+_KEEP = []  # the last few outcomes (with their Program / exception objects) stay referenced, as a long-running tool would do
+
+
 def report_of(src, files, filename="main.s"):
-    out = impl.assemble(src, rom="low_rom", filename=filename, files=files)
+    out = impl.assemble(src, rom="low_rom", filename=filename, files=files, keep_program=True)
+    _KEEP.append(out)
+    del _KEEP[:-4]
     if out.status == "err":
         return out, str(out.error)
     if out.status == "exc":
